@@ -604,6 +604,6 @@ func TestProp(t *testing.T) {
 	t.Run("helpers", func(t *testing.T) { core.Run(t, helpers) })
 }
 
-func TestReplay(t *testing.T) { core.Replay(t, mutated, random, tlCheck, helpers, lists) }
+func TestReplay(t *testing.T) { core.Replay(t, mutated, random, tlCheck, helpers, lists, tlRaw, tlbRaw) }
 
 var _ = errors.New
